@@ -22,6 +22,9 @@ ALPHABETS = {
 FILL_ARG = {'Rotate': 'mask_value', 'ShiftScaleRotate': 'mask_value', 'PadIfNeeded': 'mask_value',
             'CropAndPad': 'pad_cval_mask', 'CoarseDropout': 'mask_fill_value', 'GridDropout': 'mask_fill_value',
             'PixelDropout': 'mask_drop_value'}
+# the image-side fill argument: always set, to a value no mask may contain (77 is in no label alphabet and is no mask fill)
+IMG_FILL_ARG = {'Rotate': 'value', 'ShiftScaleRotate': 'value', 'PadIfNeeded': 'value', 'CropAndPad': 'pad_cval',
+                'CoarseDropout': 'fill_value', 'GridDropout': 'fill_value', 'PixelDropout': 'drop_value'}
 MODE_ARG = {'Rotate': 'border_mode', 'ShiftScaleRotate': 'border_mode', 'PadIfNeeded': 'border_mode',
             'CropAndPad': 'pad_mode'}
 MODES = ['constant', 'reflect', 'nearest', 'mirror', 'wrap']
@@ -70,8 +73,11 @@ def make_case(rng, name, order=None, force=None):
     shape = rng.sample([5, 6, 7, 8, 9, 10, 12], 3)
     if name in ('RandomSizedBBoxSafeCrop', 'BBoxSafeRandomCrop', 'RandomCropNearBBox'):
         shape = [max(s, 8) for s in shape]
+    image_dtype = rng.choice(['uint8', 'float32', 'int16'])
+    if name in IMG_FILL_ARG and not (force and IMG_FILL_ARG[name] in force):
+        kw[IMG_FILL_ARG[name]] = 0.77 if image_dtype == 'float32' else 77
     return {'name': name, 'kw': kw, 'dtype': dtype, 'shape': shape, 'seed': R.pick_seed(rng),
-            'image_dtype': rng.choice(['uint8', 'float32', 'int16'])}
+            'image_dtype': image_dtype}
 
 
 def jsonable(v):
